@@ -56,7 +56,9 @@ ASSUMPTIONS = [
 
 HANDLES = ['name', 'conn', 'cursor', 'mkcurs', 'proxy', 'proxy-mkcurs']
 COLSETS = [['a', 'b', 'c'], ['id', 'select', 'c d'], ['x'],
-           ['Order', 'b', 'from', 'z']]
+           ['Order', 'b', 'from', 'z'],
+           # names that differ by surrounding white space only
+           [' pad', 'pad', 'b '], ['x ', 'y']]
 VALUES = [None, 0, 1, -7, 2.5, 'x', 'y z', "q'uote", '', b'\x00\x01', 10 ** 12,
           '2020-01-31', '2020-01-31 10:20:30', 'unknown']
 
